@@ -343,7 +343,10 @@ def tecmp(seed, nepisodes, prefix):
     for i in range(nepisodes):
         ops = [{'op': 'new'}]
         for _ in range(40):
-            ops.append({'op': 'decode', 'in': tecmp_good(rng), 'pendBefore': True})
+            if rng.random() < 0.3:
+                ops.append({'op': 'tdecode', 'in': tecmp_good(rng)})        # the static TECMP decoder, directly
+            else:
+                ops.append({'op': 'decode', 'in': tecmp_good(rng), 'pendBefore': True})
         yield {'id': '%s%d' % (prefix, i), 'comp': 'dec', 'ops': ops}
 
 
